@@ -166,7 +166,9 @@ def suite_run(tier, seed):
         gs = json.load(open(reg)) + gs
     ok, bad = corpus.validate(gs)
     ws = os.path.join(BUILD, f"ws_run_{tier}")
-    where = corpus.emit_workspace(ok, ws, NBINS)
+    # binary names must be unique per workspace: all workspaces share one CARGO_TARGET_DIR
+    prefix = "bq" if tier == "quick" else "bt"
+    where = corpus.emit_workspace(ok, ws, NBINS, prefix=prefix)
     rc, err = corpus.build_workspace(ws)
     if rc != 0:
         raise RuntimeError("corpus workspace does not build:\n" + err[-4000:])
@@ -181,7 +183,7 @@ def suite_run(tier, seed):
             cases += run_cases_for(g, rnd, 3 if big else 4, 4 if big else 12, 0 if big else 3)
         else:
             cases += run_cases_for(g, rnd, 4 if big else 5, 8 if big else 40, 2 if big else 3)
-    impl = run_bins("b", where, cases)
+    impl = run_bins(prefix, where, cases)
     model = run_driver(sexp, cases)
     meta = {"suite": "run", "tier": tier, "seed": seed, "wall_s": time.time() - t0,
             "grammars": {g["gid"]: {"text": g["text"], "rules": g["rules"], "uses_stack": g["uses_stack"], "sexp": g["sexp"]} for g in ok},
@@ -202,7 +204,8 @@ def suite_run_release(tier, seed):
     gs += corpus.random_grammars(seed + 1, 8 if tier == "quick" else 64, modes=("multibyte", "multibyte", "stacky", "plain"))
     ok, bad = corpus.validate(gs)
     ws = os.path.join(BUILD, f"ws_runrel_{tier}")
-    where = corpus.emit_workspace(ok, ws, NBINS, with_pest=False)
+    prefix = "rlq" if tier == "quick" else "rlt"
+    where = corpus.emit_workspace(ok, ws, NBINS, with_pest=False, prefix=prefix)
     rc, err = corpus.build_workspace(ws, release=True)
     if rc != 0:
         raise RuntimeError("release corpus workspace does not build:\n" + err[-4000:])
@@ -215,7 +218,7 @@ def suite_run_release(tier, seed):
         g = dict(g)
         g["alphabet"] = list(g["alphabet"])[:3] + [c for c in ("é", "中", "\U0001F600") if c not in g["alphabet"]][:2]
         cases += run_cases_for(g, rnd, 3 if tier == "quick" else 4, 20, 3)
-    impl = run_bins("b", where, cases, profile="release")
+    impl = run_bins(prefix, where, cases, profile="release")
     model = run_driver(sexp, cases)
     meta = {"suite": "runrel", "tier": tier, "seed": seed, "wall_s": time.time() - t0,
             "grammars": {g["gid"]: {"text": g["text"], "rules": g["rules"], "uses_stack": g["uses_stack"], "sexp": g["sexp"]} for g in ok},
